@@ -6,7 +6,8 @@ EXPLANATION = ("C14: (R1) the function-map decoder's running state (column reset
                "global, values consumed in the order column/name/line, parse errors confined to one source); (R2) the scope "
                "lookup key (original line + 1, original column) agrees with the order of the offsets, name read with get; "
                "(R3) bytecode-offset and DecodedMap plumbing; (R4) raw metadata retained, re-emitted and permuted on rewrite; "
-               "(R5) panic-freedom.")
+               "(R5) panic-freedom."
+               " (R6) decode_hermes hands the raw map to decode_regular as parsed; (R7) kind dispatch.")
 NOT_DECIDED = "agreement with Metro's consumer on all metadata strings (value-level)."
 
 RULES = {
